@@ -98,6 +98,7 @@ def _c20(tier, seed):
             runs.append("H_C20_hosts(%d,%d,%d,%d)" % (portSel % 2, 8 if q else 12, portSel, pathSel))
     for k in (0, 1, 2):
         runs.append("H_C20_schemeless(%d,%d)" % (5 if q else 8, k))
+    runs += ["H_C20_after_caller_edit(%d,%d)" % (k, 4 if q else 8) for k in range(6)]
     return [dict(name="links", dir="/repo/telegram/deeplinks", pkg=".", harness=["harness/deeplinks/c20.go"], runs=runs, solver="z3",
                  validate_runs=["H_C20_paths(1,2,1,2)", "H_C20_paths(0,2,2,2)", "H_C20_joinchat(1,2)", "H_C20_hosts(0,8,2,0)", "H_C20_schemeless(5,1)"],
                  covers={"H_C20_joinchat": ["invite"]})]
